@@ -75,8 +75,8 @@ example : cleanRooted (b!"../..") = b!"/" := by decide
 
 /-! ### confinement -/
 
-/-- StaticDir, StaticFS (over http.Dir) and StaticFiles with ANY prefix, extension list and
-    UseEncodedPath setting, on ANY file system, for EVERY request: each path handed to `os.Open` is
+/-- StaticDir, StaticFS (over http.Dir) and StaticFiles with ANY prefix, extension list,
+    UseEncodedPath and StrictLastSlash setting, on ANY file system, for EVERY request: each path handed to `os.Open` is
     `Clean(root)` followed by zero or more proper elements, and whatever a 200 answer carries (a file's
     bytes or a directory listing) is one of the opened paths.  `root` is any absolute path. -/
 theorem C17_confined (look : Bytes → Node) (m : Mount) (q : Req) (r' : Bytes)
@@ -177,10 +177,10 @@ theorem C17_ext_served (look : Bytes → Node) (m : Mount) (q : Req) (r' : Bytes
     obtain ⟨h1, h2⟩ := fileServer_ext look r' x e hx he hd hs
     exact ⟨fun k hk => ⟨e, hmem, h1 k hk⟩, h2⟩
 
-/-- StaticFiles: a request whose normalised path (the router's formatPath: white space and trailing
-    slashes trimmed) does not end in "." ++ e for an allowed `e` is answered 404 and opens nothing -/
+/-- StaticFiles: a request whose normalised path (the router's formatPath: white space and — unless
+    StrictLastSlash — trailing slashes trimmed) does not end in "." ++ e for an allowed `e` is answered 404 and opens nothing -/
 theorem C17_ext_required (look : Bytes → Node) (m : Mount) (q : Req) (hk : m.kind = .files)
-    (h : ∀ e ∈ m.exts, hasSuffix (formatPath (if m.enc then q.esc else q.path)) (dot :: e) = false) :
+    (h : ∀ e ∈ m.exts, hasSuffix (formatPath m.strict (if m.enc then q.esc else q.path)) (dot :: e) = false) :
     (serve look m q).status = 404 ∧ (serve look m q).opened = [] ∧ (serve look m q).served = .nothing := by
   unfold serve
   dsimp only
@@ -195,8 +195,8 @@ theorem C17_ext_required (look : Bytes → Node) (m : Mount) (q : Req) (hk : m.k
     obtain ⟨x, _, rfl⟩ := (extMatch_iff v e).mp hm
     have := h e hmem
     rw [hp] at this
-    have hs : hasSuffix (m.pfx ++ slash :: (x ++ dot :: e)) (dot :: e) = true :=
-      (hasSuffix_iff _ _).mpr ⟨m.pfx ++ slash :: x, by simp⟩
+    have hs : hasSuffix (routeStatic m.pfx ++ (x ++ dot :: e)) (dot :: e) = true :=
+      (hasSuffix_iff _ _).mpr ⟨routeStatic m.pfx ++ x, by simp⟩
     rw [hs] at this
     exact absurd this (by simp)
 
